@@ -44,7 +44,7 @@ extern "C" int vf_run_case(const uint8_t * data, size_t size)
    if (size < 6) return 0;
    vf::BS bs(data, size);
    const int P = 1+bs.u8()%3, NC = 1+bs.u8()%4; int NS = 1+bs.u8()%3; if (NS > NC) NS = NC;
-   Log log; g_log = &log; log.poolSize = P; log.yields = (uint8_t)(bs.u8()%4);
+   Log log; g_log = &log; log.poolSize = P; const uint8_t yb = bs.u8(); log.yields = (uint8_t)(yb%4); const bool earlyShutdown = ((yb>>2)%4 == 0);     // earlyShutdown: the pool is destroyed with clients still registered and Messages possibly pending or being handled
    // per-submitter script: ops = (client, kind) with kind 0..5 send, 6 unregister+verify+re-register
    std::vector<std::vector<uint8_t> > scripts(NS); for (int s=0; s<NS; s++) {const uint32 n = 1+bs.u8()%10; for (uint32 i=0; i<n; i++) scripts[s].push_back(bs.u8());}
    char desc[160]; snprintf(desc, sizeof(desc), "pool of %d, %d client(s), %d submitting thread(s), handlers last %u context switches", P, NC, NS, log.yields*40u); log.desc = desc;
@@ -52,15 +52,27 @@ extern "C" int vf_run_case(const uint8_t * data, size_t size)
 
    vsched::ByteSource src(bs, (uint8_t)(bs.flip() ? 0x80 : 0xC0)); vsched::Scheduler sc(src); sc.SetContext(desc); log.sc = &sc;
    ThreadPool * pool = NULL; Client * clients[4] = {NULL, NULL, NULL, NULL};
-   volatile bool go = false; volatile int doneCount = 0; uint32 totalSubmitted = 0, unregisters = 0; bool sawUnregisterWithBacklog = false;
+   volatile bool go = false; volatile int doneCount = 0; uint32 totalSubmitted = 0, unregisters = 0; bool sawUnregisterWithBacklog = false; size_t handledAtShutdown[4] = {0, 0, 0, 0};
 
    sc.Spawn([&]{   // main logical thread: owns the pool
       pool = new ThreadPool((uint32)P);
       for (int c=0; c<NC; c++) {clients[c] = new Client(c); clients[c]->SetThreadPool(pool);}
       go = true;
       sc.WaitUntil([&]{return doneCount == NS;}, "submitters to finish");
-      for (int c=0; c<NC; c++) delete clients[c];      // all unregistered by their submitters
-      delete pool;                                     // shutdown: must return
+      if (earlyShutdown)
+      {
+         // the pool goes first: its shutdown must return (the scheduler reports a deadlock otherwise), must leave no handler running, and what was handled up to
+         // then is an in-order, duplicate-free prefix of what each client submitted; Messages still pending are dropped with the pool
+         delete pool; pool = NULL;
+         if (log.globalActive != 0) vf::Fail("%d handler(s) still running after the pool's destructor returned (%s)", log.globalActive, desc);
+         for (int c=0; c<NC; c++) {handledAtShutdown[c] = log.handled[c].size(); for (size_t k=0; k<log.handled[c].size(); k++) if (log.handled[c][k] != c*1000+(int)k) vf::Fail("client %d: Message %zu handled out of order or twice before the pool was shut down (got #%d) (%s)", c, k, log.handled[c][k]-c*1000, desc);}
+         for (int c=0; c<NC; c++) delete clients[c];   // the pool's shutdown un-registered them
+      }
+      else
+      {
+         for (int c=0; c<NC; c++) delete clients[c];      // all unregistered by their submitters
+         delete pool;                                     // shutdown: must return
+      }
    });
    for (int s=0; s<NS; s++) sc.Spawn([&, s]{
       sc.WaitUntil([&]{return go == true;}, "pool to be created");
@@ -80,6 +92,7 @@ extern "C" int vf_run_case(const uint8_t * data, size_t size)
          else
          {
             // unregister (from this non-pool thread): documented to return only after every submitted Message has been handled
+            if ((tail)&&(earlyShutdown)) break;      // these clients stay registered: the pool is destroyed under them
             for (size_t q=0; q<mine.size(); q++)
             {
                const int cc = tail ? mine[q] : c; if ((tail == false)&&(q > 0)) break;
@@ -98,11 +111,12 @@ extern "C" int vf_run_case(const uint8_t * data, size_t size)
    sc.Run();
    g_log = NULL;
    uint32 handledTotal = 0; for (int c=0; c<4; c++) handledTotal += (uint32) log.handled[c].size();
-   if (handledTotal != totalSubmitted) vf::Fail("%u Messages submitted, %u handled (%s)", totalSubmitted, handledTotal, desc);
+   if ((earlyShutdown == false)&&(handledTotal != totalSubmitted)) vf::Fail("%u Messages submitted, %u handled (%s)", totalSubmitted, handledTotal, desc);
+   if (earlyShutdown) {for (int c=0; c<NC; c++) if (log.handled[c].size() != handledAtShutdown[c]) vf::Fail("client %d: a Message was handled after the pool's destructor had returned (%s)", c, desc); vf::Count("case_pool_destroyed_with_clients_registered"); if (handledTotal < totalSubmitted) vf::Count("case_pool_destroyed_with_messages_pending");}
 
    vf::Count("context_switches", sc.Switches()); vf::Count("preemptions", sc.Preemptions()); vf::Count("messages_handled", handledTotal); vf::Count("unregistrations_checked", unregisters);
    if (log.maxGlobal >= 2) vf::Count("case_handlers_ran_in_parallel"); if (NC > P) vf::Count("case_more_clients_than_pool_threads"); if (sawUnregisterWithBacklog) vf::Count("case_unregister_with_messages_outstanding");
-   const bool nontrivial = (sawUnregisterWithBacklog)||((log.maxGlobal >= 2)&&(sc.Preemptions() >= 1));
+   const bool nontrivial = (sawUnregisterWithBacklog)||((log.maxGlobal >= 2)&&(sc.Preemptions() >= 1))||((earlyShutdown)&&(handledTotal < totalSubmitted));
    if (nontrivial) {uint64_t h = vf::HashStr(desc); for (size_t i=0; i<src.trace.size(); i++) h = vf::HashMix(h, src.trace[i]); for (int s=0; s<NS; s++) h = vf::Hash64(scripts[s].data(), scripts[s].size(), h); vf::NonTrivial(h); if (vf::WantSample()) vf::Sample(std::string(desc)+" | "+std::to_string(totalSubmitted)+" Messages, "+std::to_string(unregisters)+" unregistrations, max "+std::to_string(log.maxGlobal)+" handlers at once, "+std::to_string(sc.Switches())+" switches");}
    return 0;
 }
